@@ -55,8 +55,9 @@ def _all_cons(b):
 
 def trig_crossed_within_of_derived(case):
     """a crossing contains a within-trial derived factor one of whose dependencies is a derived factor
-    that is not in that crossing"""
+    that is not in that crossing (or a weighted non-derived factor outside every crossing, see below)"""
     F = _factors(case)
+    crossed = set(i for X in _crossings(case["block"]) for i in X)
     for X in _crossings(case["block"]):
         for i in X:
             f = F[i - 1]
@@ -64,6 +65,29 @@ def trig_crossed_within_of_derived(case):
                 for g in f["deps"]:
                     if F[g - 1]["kind"] == "d" and g not in X:
                         return True
+                    # a weighted non-derived factor outside every crossing is rewritten into a derived factor
+                    if F[g - 1]["kind"] == "b" and any(w > 1 for w in F[g - 1]["w"]) and g not in crossed:
+                        return True
+    return False
+
+
+def trig_exclude_derived_with_derived_dep(case):
+    """an Exclude of a level of a within-trial derived factor one of whose dependencies is itself derived - or is a
+    weighted non-derived factor outside every crossing, which the library rewrites into a derived factor"""
+    F = _factors(case)
+    crossed = set(i for X in _crossings(case["block"]) for i in X)
+    for k in _all_cons(case["block"]):
+        if k["c"] != "Exclude":
+            continue
+        f = F[k["f"] - 1]
+        if f["kind"] != "d":
+            continue
+        for g in f["deps"]:
+            d = F[g - 1]
+            if d["kind"] == "d":
+                return True
+            if d["kind"] == "b" and any(w > 1 for w in d["w"]) and g not in crossed:
+                return True
     return False
 
 
@@ -73,6 +97,7 @@ def trig_any(case):
 
 TRIGGERS = {
     "crossed_within_of_derived": trig_crossed_within_of_derived,
+    "exclude_derived_with_derived_dep": trig_exclude_derived_with_derived_dep,
     "any": trig_any,
 }
 
